@@ -141,10 +141,9 @@ def plan_C01(tier, rng):
         for e in binades:
             hw += gens.halfway_inputs(F, rng, [e], pats_per=2 if quick else 3, long_ok=e in longb)
         inputs += [(s, t, F) for (s, t) in hw]
-        qs = list(range(-342, 309)) if F is F64 else list(range(-65, 39))
-        if quick:
-            qs = rng.sample(qs, 160 if F is F64 else 50)
+        qs = list(range(-342, 309)) if F is F64 else list(range(-65, 39))         # every power-table row, also in quick
         inputs += [(s, t, F) for (s, t) in gens.lemire_row_inputs(F, rng, qs, per=1 if quick else 3)]
+        inputs += [(s, t, F) for (s, t) in gens.tie_decimals(F, rng, per=4 if quick else 40)]
         fp = gens.fastpath_boundary(F, rng)
         if quick:
             fp = rng.sample(fp, 250)
@@ -258,7 +257,7 @@ def norm(F, m, e):
 def plan_C03(tier, rng):
     cs = Cases()
     quick = tier == "quick"
-    cfgs = ["default", "compact", "radix"] if quick else ["default", "compact", "radix", "pow2", "crf"]
+    cfgs = ["default", "compact", "radix", "rf"] if quick else ["default", "compact", "radix", "pow2", "crf", "rf"]
     small = ["u8", "i8"] if quick else ["u8", "i8", "u16", "i16"]
     for ty in gens.INT_TYPES:
         lo, hi = gens.int_range(ty)
@@ -286,6 +285,19 @@ def plan_C03(tier, rng):
                     cs.write(ep, ty, f, str(v), [rc[j % len(rc)]], wo=True, tag="radix")
                 if j % 64 == 0:
                     ep = cs.new_ep()
+    # the sign clause: '+' only if the format requires a sign (core types of the flagged formats)
+    for name in ("syn_required_mantissa_sign", "syn_no_positive_mantissa_sign", "syn_required_digits", "pre_JAVA_LITERAL"):
+        try:
+            fid = fmt_id(name)
+        except KeyError:
+            continue
+        if "rf" not in cfgs and "crf" not in cfgs:
+            break
+        c = ["crf" if "crf" in cfgs else "rf"]
+        for ty in ("i32", "u64"):
+            ep = cs.new_ep()
+            for v in gens.boundary_ints(ty, 10, rng, 6):
+                cs.write(ep, ty, fid, str(v), c, wo=True, tag="sign-flag-format")
     models = [("MC_BigNat.tla", "MC_BigNat.cfg", 4, 600)]
     return cs, models, {"input_families": cs.tags, "configurations": cfgs,
                         "exhaustive_types": small}
